@@ -1,6 +1,6 @@
 (* Lemmas about Model/FindRoots.v: loop invariants of the stack DFS of findRoots
    (for every served predecessor order), termination, exactness of the filters. *)
-From Oras Require Import Base.Prelude Model.FindRoots.
+From Oras Require Import Base.Prelude Generated.GC03 Model.FindRoots.
 From Coq Require Import Lia.
 Local Open Scope nat_scope.
 
@@ -470,6 +470,19 @@ Definition desc_consistent (s : source) (p : desc) : Prop :=
   | Some m => forall k, lookup k m = lookup k (manifest_annots s (d_id p))
   end.
 
+(* the case lists re-read from extendedcopy.go are the ones the proofs rely on *)
+Lemma at_fetch_kind_table k :
+  at_fetch_kind k = match k with KArtifact | KImage | KIndex => true | _ => false end.
+Proof. destruct k; vm_compute; reflexivity. Qed.
+
+Lemma ann_fetch_kind_table k :
+  ann_fetch_kind k = match k with KOther => false | _ => true end.
+Proof. destruct k; vm_compute; reflexivity. Qed.
+
+Lemma fetch_cases_table k :
+  in_cases fetchArtifactType_cases k = match k with KArtifact | KImage | KIndex => true | _ => false end.
+Proof. destruct k; vm_compute; reflexivity. Qed.
+
 Lemma is_empty_true (x : str) : is_empty x = true <-> x = [].
 Proof. destruct x; simpl; split; congruence. Qed.
 
@@ -488,11 +501,13 @@ Lemma fill_at_type s p :
   desc_consistent s p -> d_at (fill_at s p) = effective_type s (d_id p).
 Proof.
   intros ([Ha | Ha] & _); unfold fill_at, fill_at_gen.
-  - rewrite Ha. simpl. unfold effective_type, fetch_artifact_type, at_fetch_kind.
+  - rewrite Ha. simpl. unfold effective_type, fetch_artifact_type.
+    rewrite at_fetch_kind_table, fetch_cases_table.
     destruct (s_kind s (d_id p)); simpl; auto.
   - destruct (is_empty (d_at p)) eqn:Ee; auto.
     apply is_empty_true in Ee. rewrite Ee in *.
-    unfold effective_type, fetch_artifact_type, at_fetch_kind in *.
+    unfold effective_type, fetch_artifact_type in *.
+    rewrite at_fetch_kind_table, fetch_cases_table.
     destruct (s_kind s (d_id p)); simpl; auto.
 Qed.
 
